@@ -1,0 +1,39 @@
+// SPDX-FileCopyrightText: 2026 The Pion community <https://pion.ly>
+// SPDX-License-Identifier: MIT
+
+//go:build verif
+
+package nack
+
+// VerifReceiveLog exposes the unexported receiveLog to the external verification harness.
+// It only exists when the build tag `verif` is set.
+type VerifReceiveLog struct {
+	log *receiveLog
+	buf []uint16
+}
+
+// VerifNewReceiveLog wraps newReceiveLog. The scratch buffer handed to missingSeqNumbers has
+// `size` entries, exactly as GeneratorInterceptor.loop allocates it.
+func VerifNewReceiveLog(size uint16) (*VerifReceiveLog, error) {
+	l, err := newReceiveLog(size)
+	if err != nil {
+		return nil, err
+	}
+
+	return &VerifReceiveLog{log: l, buf: make([]uint16, size)}, nil
+}
+
+// Add wraps receiveLog.add.
+func (v *VerifReceiveLog) Add(seq uint16) { v.log.add(seq) }
+
+// Get wraps receiveLog.get.
+func (v *VerifReceiveLog) Get(seq uint16) bool { return v.log.get(seq) }
+
+// MissingSeqNumbers wraps receiveLog.missingSeqNumbers; the result is a copy.
+func (v *VerifReceiveLog) MissingSeqNumbers(skipLastN uint16) []uint16 {
+	missing := v.log.missingSeqNumbers(skipLastN, v.buf)
+	out := make([]uint16, len(missing))
+	copy(out, missing)
+
+	return out
+}
